@@ -5,7 +5,7 @@ SEED="$1"; ID="$2"; shift 2
 cd /verif
 git -C /repo diff --quiet || { echo "/repo has uncommitted changes"; exit 2; }
 git -C /repo apply "/verif/seeded/$SEED/patch.diff" || { echo "patch does not apply"; exit 3; }
-./check "$ID" "$@"; RC=$?
+timeout ${SEED_TIMEOUT:-3000} ./check "$ID" "$@"; RC=$?
 git -C /repo checkout -- .
 echo "seedtest $SEED property=$ID exit=$RC"
 exit 0
